@@ -170,8 +170,257 @@ def g_norecv(rng, i, **kw):
     sched = scen.sched_seq(rng, scripts) if mode == "seq" else scen.sched_rand(rng, scripts, rng.choice([40, 150]))
     return scen.Scn("norecv%d" % i, fl, kind, cap, wk, sf, sy, scripts, sched, tags=("norecv",))
 
+
+def _spins(rng, allow_default=False):
+    c = [0, 0, 1, 2] + ([50] if allow_default else [])
+    return rng.choice(c), rng.choice(c)
+
+def g_block(rng, i, **kw):
+    """consumers entering blocking receives against producers that send and drop / stay alive"""
+    fl = kw.get("fl") or rng.choice("BM")
+    wk = rng.choice(["busy", "yield", "block", "block"])
+    sf, sy = (0, 0) if wk == "busy" else _spins(rng, allow_default=rng.random() < 0.1)
+    cap = rng.choice([1, 1, 2, 2, 4])
+    scripts = {0: [], 1: []}
+    nxt = 2
+    nval = rng.choice([1, 2, 3, 4, 6])
+    cons = [1]
+    for _ in range(rng.choice([0, 1, 1, 2])):
+        if fl == "B" and rng.random() < 0.4:
+            scripts[1].append("addstream:%d" % nxt)
+        else:
+            scripts[1].append("clone:%d" % nxt)
+        scripts[nxt] = []; cons.append(nxt); nxt += 1
+    for c in cons:
+        k = rng.choice([1, 1, 2, 3])
+        calls = [rng.choice(["brecv", "brecv", "recv"]) for _ in range(k)]
+        if rng.random() < 0.2 and c != 1 and False:
+            pass
+        scripts[c] += calls + ([rng.choice(["drop", "unsub"])] if rng.random() < 0.7 else [])
+    if rng.random() < 0.4:
+        scripts[0].append("clone:%d" % nxt)
+        scripts[nxt] = ["send:%d" % (50 + k) for k in range(rng.choice([1, 2]))] + (["drop"] if rng.random() < 0.7 else []); nxt += 1
+    scripts[0] += ["send:%d" % (k + 1) for k in range(nval)] + (["drop"] if rng.random() < 0.5 else [])
+    return scen.Scn("blk%d" % i, fl, "plain", cap, wk, sf, sy, scripts,
+                    scen.sched_rand(rng, scripts, rng.choice([30, 80, 200])), limit=1600, tags=("block",))
+
+def g_fut(rng, i, **kw):
+    """sink tasks and stream tasks that await notifications"""
+    fl = kw.get("fl") or rng.choice("BBM")
+    sf, sy = (50, 50) if fl == "M" else _spins(rng)
+    cap = rng.choice([1, 1, 2])
+    scripts = {0: [], 1: []}
+    nxt = 2; val = 1
+    streams = [1]
+    for _ in range(rng.choice([0, 1, 1, 2])):
+        if fl == "B" and rng.random() < 0.6:
+            scripts[1].append("addstream:%d" % nxt)
+        else:
+            scripts[1].append("clone:%d" % nxt)
+        scripts[nxt] = []; streams.append(nxt); nxt += 1
+    for c in streams:
+        k = rng.choice([1, 2, 3, 4])
+        style = rng.choice(["apoll", "apoll", "poll", "recv", "mix"])
+        calls = []
+        for _ in range(k):
+            calls.append(style if style != "mix" else rng.choice(["apoll", "poll", "recv", "brecv"]))
+        if rng.random() < 0.25:
+            calls = calls[:1]
+        scripts[c] += calls + ([rng.choice(["drop", "unsub"])] if rng.random() < 0.75 else [])
+    senders = [0]
+    if rng.random() < 0.4:
+        scripts[0].append("clone:%d" % nxt); scripts[nxt] = []; senders.append(nxt); nxt += 1
+    for sd in senders:
+        k = rng.choice([1, 2, 3, 5])
+        for _ in range(k):
+            scripts[sd].append(rng.choice(["asend:%d", "asend:%d", "ssend:%d", "send:%d"]) % val); val += 1
+        if rng.random() < 0.6:
+            scripts[sd].append("drop")
+    return scen.Scn("fut%d" % i, fl, "fut", cap, "fut", sf, sy, scripts,
+                    scen.sched_rand(rng, scripts, rng.choice([30, 100, 300])), limit=2500 if fl == "M" else 1800, tags=("fut",))
+
+def g_churn(rng, i, **kw):
+    """stream add/remove and handle clone/drop churn with writers scanning and a late handle"""
+    fl = "B"
+    kind = rng.choice(["plain", "plain", "fut"])
+    wk, sf, sy = ("busy", 0, 0) if kind == "plain" else ("fut", 0, 0)
+    cap = rng.choice([1, 2, 4])
+    cycles = kw.get("cycles") or rng.choice([6, 10, 14, 18])
+    scripts = {0: [], 1: []}
+    nxt = 2
+    late = None
+    if rng.random() < 0.7:
+        scripts[1].append("clone:%d" % nxt); late = nxt; scripts[nxt] = []; nxt += 1
+    if rng.random() < 0.5:
+        scripts[0].append("clone:%d" % nxt)
+        scripts[nxt] = ["send:%d" % (200 + k) for k in range(rng.choice([3, 8]))] + ["drop"]; nxt += 1
+    for k in range(cycles):
+        r = rng.random()
+        if r < 0.7:
+            scripts[1].append("addstream:%d" % nxt)
+            scripts[nxt] = ["recv"] * rng.choice([0, 1]) + [rng.choice(["drop", "unsub"])]
+        else:
+            scripts[1].append("clone:%d" % nxt)
+            scripts[nxt] = ["recv"] * rng.choice([0, 1]) + ["drop"]
+        nxt += 1
+        if rng.random() < 0.5:
+            scripts[1].append("recv")
+    scripts[1].append("drop")
+    scripts[0] += ["send:%d" % (k + 1) for k in range(rng.choice([4, 10, 16]))] + ["drop"]
+    sched = scen.sched_rand(rng, {a: v for a, v in scripts.items() if a != late}, rng.choice([300, 700]))
+    if late is not None:
+        scripts[late] = ["recv"] * rng.choice([1, 2]) + ["drop"]
+        # the late handle acknowledges only after a lot of churn
+        sched = sched + [str(late)] * 30 + scen.sched_rand(rng, scripts, 200)
+    return scen.Scn("churn%d" % i, fl, kind, cap, wk, sf, sy, scripts, sched, limit=6000, tags=("churn",))
+
+def g_quiesce(rng, i, **kw):
+    """a concurrent phase, all threads joined (sync), then a sequential drain / refill probe"""
+    fl = kw.get("fl") or rng.choice("BM")
+    kind = rng.choice(["plain", "plain", "fut"])
+    _, _, cap, wk, sf, sy = scen.pick_cfg(rng, kind, fl, blocking_ok=False)
+    cap = rng.choice([0, 1, 2, 3, 4])
+    n = cap_n(cap)
+    scripts = scen.gen_scripts(rng, fl, kind, rng.choice([6, 10, 16]), allow_block=False, allow_convert=False)
+    # survivors keep their handles for the probe
+    val = 900
+    for a in sorted(scripts):
+        sc = scripts[a]
+        ends = sc and sc[-1] in ("drop", "unsub")
+        is_sender = any(c.startswith(("send", "ssend", "asend", "pollc")) for c in sc) or a == 0
+        keep = rng.random() < 0.7 or a in (0, 1)
+        sc2 = [c for c in sc if not c.startswith(("asend", "apoll"))]
+        if ends and keep:
+            sc2 = sc2[:-1] + ["sync"]
+            if is_sender:
+                sc2 += ["send:%d" % (val + k) for k in range(n + 2)]; val += n + 2
+            else:
+                sc2 += ["recv"] * (n + 2)
+        scripts[a] = sc2
+    # second round of the probe: refill after the drain
+    if scripts[0] and "sync" in scripts[0]:
+        scripts[0] += ["send:%d" % (val + k) for k in range(n + 2)]
+    return scen.Scn("qui%d" % i, fl, kind, cap, wk, sf, sy, scripts,
+                    scen.sched_rand(rng, scripts, rng.choice([40, 150, 400])), limit=4000, tags=("quiesce",))
+
+def g_addstream(rng, i, **kw):
+    """add_stream racing producers (wrapping the ring) and consumers of the parent and of other streams"""
+    kind = rng.choice(["plain", "plain", "fut"])
+    wk, sf, sy = ("busy", 0, 0) if kind == "plain" else ("fut", rng.choice([0, 1]), rng.choice([0, 1]))
+    cap = rng.choice([1, 2, 2, 4])
+    scripts = {0: [], 1: []}
+    nxt = 2
+    rcv = "recv" if kind == "plain" else rng.choice(["recv", "poll"])
+    shared_parent = kw.get("shared", rng.random() < 0.3)
+    if shared_parent:
+        scripts[1].append("clone:%d" % nxt); scripts[nxt] = [rcv] * rng.choice([2, 4, 6]) + ["drop"]; nxt += 1
+    pre = rng.choice([0, 1, 2])
+    scripts[1] += [rcv] * pre
+    for _ in range(rng.choice([1, 2, 3])):
+        scripts[1].append("addstream:%d" % nxt)
+        scripts[nxt] = [rcv] * rng.choice([2, 4, 8]) + [rng.choice(["drop", "unsub"])]; nxt += 1
+        scripts[1] += [rcv] * rng.choice([0, 1, 2])
+    scripts[1] += [rcv] * rng.choice([2, 4]) + ["drop"]
+    if rng.random() < 0.4:
+        scripts[0].append("clone:%d" % nxt)
+        scripts[nxt] = ["send:%d" % (100 + k) for k in range(rng.choice([2, 5]))] + ["drop"]; nxt += 1
+    scripts[0] += ["send:%d" % (k + 1) for k in range(rng.choice([4, 8, 12]))] + ["drop"]
+    return scen.Scn("add%d" % i, "B", kind, cap, wk, sf, sy, scripts,
+                    scen.sched_rand(rng, scripts, rng.choice([60, 200, 500])), tags=("addstream", "sharedparent" if shared_parent else "soleparent"))
+
+def g_unsub(rng, i, **kw):
+    """dropping / unsubscribing receiver handles against producers retrying on a full queue"""
+    fl = kw.get("fl") or rng.choice("BBM")
+    kind = rng.choice(["plain", "plain", "fut"])
+    _, _, cap, wk, sf, sy = scen.pick_cfg(rng, kind, fl, blocking_ok=False)
+    cap = rng.choice([0, 1, 2])
+    scripts = {0: [], 1: []}
+    nxt = 2
+    leavers = []
+    for _ in range(rng.choice([1, 2, 3])):
+        if fl == "B" and rng.random() < 0.6:
+            scripts[1].append("addstream:%d" % nxt)
+        else:
+            scripts[1].append("clone:%d" % nxt)
+        scripts[nxt] = []; leavers.append(nxt); nxt += 1
+    for a in leavers:
+        if rng.random() < 0.5:
+            scripts[a].append("clone:%d" % nxt); scripts[nxt] = ["recv"] * rng.choice([0, 1]) + [rng.choice(["drop", "unsub"])]; nxt += 1
+        scripts[a] += ["recv"] * rng.choice([0, 0, 1]) + [rng.choice(["drop", "unsub", "unsub"])]
+    scripts[1] += ["recv"] * rng.choice([1, 3, 6]) + [rng.choice(["drop", "unsub"])]
+    snd = "send:%d" if kind == "plain" else rng.choice(["send:%d", "ssend:%d"])
+    scripts[0] += [snd % (k + 1) for k in range(rng.choice([4, 8, 12]))] + ["drop"]
+    return scen.Scn("unsub%d" % i, fl, kind, cap, wk, sf, sy, scripts,
+                    scen.sched_rand(rng, scripts, rng.choice([60, 200, 400])), tags=("unsub",))
+
+def g_handles(rng, i, **kw):
+    """live senders 1->2->1 and consumers of a stream 1->2->1 (clone, drop, unsub, into_single/into_multi) during traffic"""
+    fl = kw.get("fl") or rng.choice("BM")
+    kind = rng.choice(["plain", "plain", "fut"])
+    _, _, cap, wk, sf, sy = scen.pick_cfg(rng, kind, fl, blocking_ok=False)
+    cap = rng.choice([1, 2, 4])
+    scripts = {0: [], 1: []}
+    nxt = 2; val = [1]
+    snd = "send:%d" if kind == "plain" else rng.choice(["send:%d", "ssend:%d"])
+    rcv = "recv" if kind == "plain" else rng.choice(["recv", "poll"])
+    def sends(k):
+        out = []
+        for _ in range(k):
+            out.append(snd % val[0]); val[0] += 1
+        return out
+    for _ in range(rng.choice([1, 2, 3])):
+        scripts[0] += sends(rng.choice([1, 2, 3]))
+        scripts[0].append("clone:%d" % nxt); scripts[nxt] = sends(rng.choice([1, 2, 4])) + ["drop"]; nxt += 1
+    scripts[0] += sends(rng.choice([2, 4])) + ["drop"]
+    for _ in range(rng.choice([1, 2, 3])):
+        scripts[1] += [rcv] * rng.choice([1, 2, 3])
+        scripts[1].append("clone:%d" % nxt); scripts[nxt] = [rcv] * rng.choice([1, 2, 4]) + [rng.choice(["drop", "unsub"])]; nxt += 1
+    scripts[1] += [rcv] * rng.choice([2, 4])
+    if rng.random() < 0.5:
+        scripts[1] += ["intosingle"] + [rcv] * rng.choice([1, 3])
+        # whichever way the conversion went, these calls are valid for both handle kinds
+    scripts[1].append(rng.choice(["drop", "unsub"]))
+    return scen.Scn("hnd%d" % i, fl, kind, cap, wk, sf, sy, scripts,
+                    scen.sched_rand(rng, scripts, rng.choice([80, 250, 600])), tags=("handles",))
+
+def g_futseq(rng, i, **kw):
+    """sequential histories mixing start_send / poll_complete / poll with the direct methods, fresh queues included"""
+    fl = kw.get("fl") or rng.choice("BM")
+    sf, sy = (50, 50) if fl == "M" else _spins(rng)
+    cap = rng.choice([0, 1, 2, 3, 4])
+    scripts = {0: [], 1: []}
+    val = 1
+    # polls on a fresh, never-written, empty queue first
+    scripts[1] += [rng.choice(["poll", "recv"]) for _ in range(rng.choice([1, 2]))]
+    pop = scen.Pop(rng, fl, "fut", max_agents=5, allow_block=False)
+    pop.scripts = scripts
+    budget = rng.choice([8, 16, 30])
+    while budget > 0 and pop.open:
+        a = rng.choice(pop.open); pop.step(a); budget -= 1
+        # awaiting calls would never return in a sequential history when they cannot progress
+        pop.scripts[a][-1] = pop.scripts[a][-1].replace("apoll", "poll").replace("asend", "ssend")
+    for a in list(pop.open):
+        pop.close(a)
+    return scen.Scn("fseq%d" % i, fl, "fut", cap, "fut", sf, sy, pop.scripts, scen.sched_seq(rng, pop.scripts), limit=6000, tags=("futseq",))
+
+def g_solo(rng, i, **kw):
+    """every other thread frozen at an arbitrary operation while one thread runs a single try operation alone"""
+    fl = kw.get("fl") or rng.choice("BM")
+    wk = rng.choice(["busy", "yield"])
+    sf, sy = (0, 0) if wk == "busy" else _spins(rng)
+    cap = rng.choice([0, 1, 2, 4])
+    scripts = scen.gen_scripts(rng, fl, "plain", rng.choice([8, 14, 22]), allow_block=False)
+    ags = sorted(scripts)
+    toks = []
+    for _ in range(rng.choice([3, 6, 10])):
+        toks += scen.sched_rand(rng, scripts, rng.choice([5, 15, 40]))
+        toks.append("%d*" % rng.choice(ags))
+    toks = [t.replace("!", "") for t in toks]
+    return scen.Scn("solo%d" % i, fl, "plain", cap, wk, sf, sy, scripts, toks, tags=("solo",))
+
 GENS = {"seq": g_seq, "rand": g_rand, "pc": g_pc, "view": g_view, "teardown": g_teardown, "disc": g_disc,
-        "norecv": g_norecv}
+        "norecv": g_norecv, "block": g_block, "fut": g_fut, "churn": g_churn, "quiesce": g_quiesce,
+        "addstream": g_addstream, "unsub": g_unsub, "handles": g_handles, "futseq": g_futseq, "solo": g_solo}
 
 # ---------------------------------------------------------------- small scenarios for exhaustive schedules
 def smalls_ring():
@@ -192,6 +441,17 @@ PROPS = {
     "C05": {"gens": [("teardown", 110, {}), ("rand", 40, {})], "small": smalls_ring()[:2], "oracles": ["C05"]},
     "C07": {"gens": [("disc", 130, {}), ("rand", 30, {})], "small": [], "oracles": ["C07"]},
     "C13": {"gens": [("norecv", 130, {}), ("rand", 20, {})], "small": [], "oracles": ["C13"]},
+    "C06": {"gens": [("quiesce", 150, {})], "small": [], "oracles": ["C06"]},
+    "C08": {"gens": [("block", 170, {})], "small": [], "oracles": ["C08"]},
+    "C09": {"gens": [("seq", 110, {}), ("futseq", 50, {})], "small": [], "oracles": ["C09"]},
+    "C10": {"gens": [("addstream", 150, {})], "small": [], "oracles": ["C01", "C03", "C10"]},
+    "C11": {"gens": [("unsub", 150, {})], "small": [], "oracles": ["C11", "C01", "C03"]},
+    "C12": {"gens": [("handles", 150, {})], "small": smalls_ring()[:1], "oracles": ["C01", "C02", "C03"]},
+    "C14": {"gens": [("fut", 170, {})], "small": [], "oracles": ["C14"]},
+    "C15": {"gens": [("futseq", 90, {}), ("fut", 60, {})], "small": [], "oracles": ["C15", "C09", "C01"]},
+    "C16": {"gens": [("churn", 60, {}), ("rand", 40, {})], "small": [], "oracles": ["C16"]},
+    "C17": {"gens": [("churn", 60, {}), ("teardown", 60, {})], "small": [], "oracles": ["C17"]},
+    "C18": {"gens": [("solo", 150, {})], "small": [], "oracles": ["C18"]},
 }
 
 def nontrivial_rule(pid):
